@@ -1,1 +1,493 @@
-fn main() { verif_common::machinery_error("engine not built yet"); }
+//! rt_extract — property C15: typed request data equals what the client encoded, or a clean error.
+//!
+//! Exhaustive enumeration of (target struct, value, per-character wire encoding) for the four
+//! extractors, executed against the real `pavex` constructors, compared with a small reference.
+mod cases;
+mod refmodel;
+mod shapes;
+mod val;
+
+use cases::{Bounds, Case, Sink};
+use refmodel::Channel;
+use serde_json::{Value, json};
+use shapes::Entry;
+use std::collections::{BTreeMap, HashSet};
+use std::hash::{Hash, Hasher};
+use std::sync::Mutex;
+use std::sync::atomic::{AtomicUsize, Ordering};
+use val::{Expect, Outcome, judge};
+
+fn hex(b: &[u8]) -> String {
+    b.iter().map(|x| format!("{x:02x}")).collect()
+}
+fn unhex(s: &str) -> Vec<u8> {
+    (0..s.len() / 2)
+        .map(|i| u8::from_str_radix(&s[2 * i..2 * i + 2], 16).unwrap_or_else(|_| verif_common::machinery_error("bad hex in replay")))
+        .collect()
+}
+
+fn execute(router: &matchit::Router<u32>, e: &Entry, ch: Channel, wire: &[u8], ct: Option<&[u8]>) -> Outcome {
+    match ch {
+        Channel::Path | Channel::Query => {
+            let Ok(target) = std::str::from_utf8(wire) else {
+                return Outcome::UriRejected;
+            };
+            if ch == Channel::Path {
+                (e.path)(router, target)
+            } else {
+                (e.query)(target)
+            }
+        }
+        Channel::Form => (e.form)(ct, wire),
+        Channel::Json => (e.json)(ct, wire),
+    }
+}
+
+fn branch(exp: &Expect) -> &'static str {
+    if exp.undeliverable {
+        "undeliverable"
+    } else if exp.ok.is_empty() {
+        "must-err"
+    } else if exp.err.is_empty() {
+        "must-ok"
+    } else {
+        "ok-or-err"
+    }
+}
+
+fn outcome_label(o: &Outcome) -> String {
+    match o {
+        Outcome::Ok(_) => "Ok".into(),
+        Outcome::Err(e) => format!("Err({})", e.variant),
+        Outcome::Panic(_) => "PANIC".into(),
+        Outcome::UriRejected => "uri-rejected".into(),
+        Outcome::NotRouted => "not-routed".into(),
+    }
+}
+
+fn case_json(c: &Case) -> Value {
+    json!({
+        "channel": c.channel.as_str(),
+        "shape": c.shape,
+        "wire": String::from_utf8_lossy(&c.wire),
+        "wire_hex": hex(&c.wire),
+        "content_type": c.content_type.as_ref().map(|b| String::from_utf8_lossy(b).to_string()),
+        "content_type_hex": c.content_type.as_ref().map(|b| hex(b)),
+        "client_meant": c.logical,
+        "expect": serde_json::to_value(&c.expect).unwrap(),
+    })
+}
+
+struct Found {
+    key: String,
+    what: String,
+    case: Value,
+}
+
+#[derive(Default)]
+struct Stats {
+    evaluations: u64,
+    distinct: u64,
+    distinct_nontrivial: u64,
+    dropped_ambiguous: u64,
+    violations_beyond_witness_cap: u64,
+    /// "channel/base/branch -> outcome" → count
+    histogram: BTreeMap<String, u64>,
+    /// per channel
+    per_channel: BTreeMap<String, u64>,
+    samples: BTreeMap<String, Vec<Value>>,
+    found: Vec<Found>,
+}
+
+impl Stats {
+    fn merge(&mut self, o: Stats) {
+        self.evaluations += o.evaluations;
+        self.distinct += o.distinct;
+        self.distinct_nontrivial += o.distinct_nontrivial;
+        self.dropped_ambiguous += o.dropped_ambiguous;
+        self.violations_beyond_witness_cap += o.violations_beyond_witness_cap;
+        for (k, v) in o.histogram {
+            *self.histogram.entry(k).or_default() += v;
+        }
+        for (k, v) in o.per_channel {
+            *self.per_channel.entry(k).or_default() += v;
+        }
+        for (k, v) in o.samples {
+            let e = self.samples.entry(k).or_default();
+            for s in v {
+                if e.is_empty() {
+                    e.push(s);
+                }
+            }
+        }
+        self.found.extend(o.found);
+    }
+}
+
+/// Per-job sink: executes each case against the real code and judges it.
+struct JobSink<'a> {
+    router: &'a matchit::Router<u32>,
+    entry: &'a Entry,
+    seen: HashSet<u64>,
+    found_per_key: BTreeMap<String, u64>,
+    stats: Stats,
+}
+
+impl Sink for JobSink<'_> {
+    fn dropped_ambiguous(&mut self, n: usize) {
+        self.stats.dropped_ambiguous += n as u64;
+    }
+    fn check(&mut self, case: Case) {
+        if case.shape != self.entry.name {
+            verif_common::machinery_error("case routed to the wrong job");
+        }
+        self.stats.evaluations += 1;
+        let mut h = std::collections::hash_map::DefaultHasher::new();
+        (case.channel, &case.wire, &case.content_type).hash(&mut h);
+        let fresh = self.seen.insert(h.finish());
+        let br = branch(&case.expect);
+        let trivial = case.base == "literal" && br == "must-ok";
+        if fresh {
+            self.stats.distinct += 1;
+            if !trivial {
+                self.stats.distinct_nontrivial += 1;
+            }
+        }
+        let out = execute(self.router, self.entry, case.channel, &case.wire, case.content_type.as_deref());
+        let class = format!("{}/{}/{}", case.channel.as_str(), case.base, br);
+        *self.stats.histogram.entry(format!("{class} -> {}", outcome_label(&out))).or_default() += 1;
+        *self.stats.per_channel.entry(case.channel.as_str().into()).or_default() += 1;
+        let smp = self.stats.samples.entry(class).or_default();
+        if smp.len() < 1 {
+            let mut j = case_json(&case);
+            j["observed"] = serde_json::to_value(&out).unwrap();
+            smp.push(j);
+        }
+        if let Some(kind) = judge(&case.expect, &out) {
+            // determinism: the same case must give the same verdict again
+            let again = execute(self.router, self.entry, case.channel, &case.wire, case.content_type.as_deref());
+            if again != out {
+                verif_common::machinery_error(&format!(
+                    "nondeterministic outcome for {} {} {:?}",
+                    case.channel.as_str(),
+                    case.shape,
+                    String::from_utf8_lossy(&case.wire)
+                ));
+            }
+            let key = format!("{}:{}:{}", case.channel.as_str(), key_group(case.base), kind);
+            let n = self.found_per_key.entry(key.clone()).or_default();
+            *n += 1;
+            if *n > 3 {
+                // enough witnesses for this key from this job (all are still counted)
+                self.stats.violations_beyond_witness_cap += 1;
+                return;
+            }
+            let what = format!(
+                "{} extractor, target {} {:?}, wire {:?} (client meant {}): observed {:?}, expected {}",
+                case.channel.as_str(),
+                case.shape,
+                self.entry.fields.iter().map(|(n, t)| format!("{n}: {}", t.name())).collect::<Vec<_>>(),
+                String::from_utf8_lossy(&case.wire),
+                case.logical,
+                out,
+                describe_expect(&case.expect),
+            );
+            self.stats.found.push(Found {
+                key,
+                what,
+                case: case_json(&case),
+            });
+        }
+    }
+}
+
+/// Violation keys name the mechanism, not the generator: all value round-trip families share
+/// one group so that one defect gives very few keys.
+fn key_group(base: &str) -> &str {
+    match base {
+        "invalid-utf8" | "content-type" | "sequence" | "sequence-malformed" | "repeated-scalar-key"
+        | "trailing-garbage" | "malformed-json" | "missing-field" | "empty-segment" | "unsupported-seq" => base,
+        _ => "roundtrip",
+    }
+}
+
+fn describe_pat(p: &val::ErrPat) -> String {
+    if p.variant.is_empty() {
+        return "<any documented error>".to_string();
+    }
+    let mut s = p.variant.clone();
+    let mut parts = vec![];
+    for (k, v) in [("key", &p.key), ("value", &p.value), ("expected_type", &p.expected_type), ("actual", &p.actual)] {
+        if let Some(v) = v {
+            parts.push(format!("{k}={v:?}"));
+        }
+    }
+    if !p.display_contains.is_empty() {
+        parts.push(format!("message contains {:?}", p.display_contains));
+    }
+    if !parts.is_empty() {
+        s.push_str(&format!("{{{}}}", parts.join(", ")));
+    }
+    s
+}
+
+fn describe_expect(e: &Expect) -> String {
+    if e.undeliverable {
+        return "request not routed to the extractor".into();
+    }
+    let mut parts = vec![];
+    if !e.ok.is_empty() {
+        parts.push(format!("Ok with one of {:?}", e.ok));
+    }
+    if !e.err.is_empty() {
+        parts.push(format!(
+            "an error matching one of {:?}",
+            e.err.iter().map(describe_pat).collect::<Vec<_>>()
+        ));
+    }
+    parts.join(" or ")
+}
+
+#[derive(Clone, Copy, PartialEq)]
+enum Kind {
+    Single,
+    Multi,
+    Wide,
+    Seq,
+}
+
+fn kind_of(e: &Entry) -> Kind {
+    if e.name.starts_with('X') {
+        Kind::Single
+    } else if e.name.starts_with('M') {
+        Kind::Multi
+    } else if e.name.starts_with('W') {
+        Kind::Wide
+    } else {
+        Kind::Seq
+    }
+}
+
+fn run_job(router: &matchit::Router<u32>, e: &Entry, ch: Channel, sub: usize, b: &Bounds) -> Stats {
+    let mut sink = JobSink {
+        router,
+        entry: e,
+        seen: HashSet::new(),
+        found_per_key: BTreeMap::new(),
+        stats: Stats::default(),
+    };
+    match (ch, kind_of(e)) {
+        (Channel::Json, Kind::Single) => {
+            cases::gen_single_json(e, b, &mut sink);
+            if e.name == "XString" {
+                cases::gen_content_types(ch, e, &mut sink);
+            }
+        }
+        (Channel::Json, Kind::Multi) => cases::gen_multi_json(e, b, sub, &mut sink),
+        (Channel::Json, Kind::Wide) => cases::gen_wide_json(e, &mut sink),
+        (Channel::Json, Kind::Seq) => cases::gen_seq_json(e, b, &mut sink),
+        (_, Kind::Single) => {
+            cases::gen_single_text(ch, e, b, &mut sink);
+            if ch == Channel::Form && e.name == "XString" {
+                cases::gen_content_types(ch, e, &mut sink);
+            }
+        }
+        (_, Kind::Multi) => cases::gen_multi_text(ch, e, b, sub, &mut sink),
+        (_, Kind::Wide) => cases::gen_wide_text(ch, e, &mut sink),
+        (_, Kind::Seq) => cases::gen_seq_text(ch, e, b, &mut sink),
+    }
+    sink.stats
+}
+
+fn replay(path: &std::path::Path) -> ! {
+    let case = verif_common::load_replay(path);
+    let s = |k: &str| -> String {
+        case.get(k)
+            .and_then(|v| v.as_str())
+            .unwrap_or_else(|| verif_common::machinery_error(&format!("replay lacks `{k}`")))
+            .to_string()
+    };
+    let ch = Channel::parse(&s("channel")).unwrap_or_else(|| verif_common::machinery_error("replay: unknown channel"));
+    let shape = s("shape");
+    let wire = unhex(&s("wire_hex"));
+    let ct = case.get("content_type_hex").and_then(|v| v.as_str()).map(unhex);
+    let expect: Expect = serde_json::from_value(case.get("expect").cloned().unwrap_or(Value::Null))
+        .unwrap_or_else(|e| verif_common::machinery_error(&format!("replay: bad expectation: {e}")));
+    let reg = shapes::registry();
+    let entry = reg
+        .iter()
+        .find(|e| e.name == shape)
+        .unwrap_or_else(|| verif_common::machinery_error("replay: unknown shape"));
+    let router = cases::build_router();
+    let out = execute(&router, entry, ch, &wire, ct.as_deref());
+    println!("channel   : {}", ch.as_str());
+    println!(
+        "target    : {} {{ {} }}",
+        entry.name,
+        entry.fields.iter().map(|(n, t)| format!("{n}: {}", t.name())).collect::<Vec<_>>().join(", ")
+    );
+    println!("wire      : {:?}", String::from_utf8_lossy(&wire));
+    if let Some(ct) = &ct {
+        println!("content-type: {:?}", String::from_utf8_lossy(ct));
+    }
+    println!("expected  : {}", describe_expect(&expect));
+    println!("observed  : {out:?}");
+    match judge(&expect, &out) {
+        Some(kind) => {
+            println!("REPLAY: still violates ({kind})");
+            std::process::exit(1)
+        }
+        None => {
+            println!("REPLAY: conforms");
+            std::process::exit(0)
+        }
+    }
+}
+
+fn main() {
+    let args = verif_common::Args::parse();
+    if args.property != "C15" {
+        verif_common::machinery_error(&format!("rt_extract serves C15, not `{}`", args.property));
+    }
+    // panics of the code under test are caught and reported as violations; keep stderr quiet
+    std::panic::set_hook(Box::new(|_| {}));
+    if let Some(p) = &args.replay {
+        replay(p);
+    }
+    let mut rep = verif_common::Reporter::from_args(&args);
+    let thorough = args.tier.is_thorough();
+    let bounds = Bounds {
+        single_len: if thorough { 4 } else { 3 },
+        multi_a_len: if thorough { 3 } else { 1 },
+        json_len: if thorough { 4 } else { 2 },
+        seq_len: if thorough { 3 } else { 2 },
+        strict_json_tail: args.extra("strict-json-tail") == Some("1"),
+    };
+    let router = cases::build_router();
+    let reg = shapes::registry();
+    // one job per (target, channel); three-field targets are further split per wire order
+    let mut jobs: Vec<(usize, Channel, usize)> = vec![];
+    for (i, e) in reg.iter().enumerate() {
+        for ch in [Channel::Path, Channel::Query, Channel::Form, Channel::Json] {
+            let subs = if kind_of(e) == Kind::Multi { 6 } else { 1 };
+            for sub in 0..subs {
+                jobs.push((i, ch, sub));
+            }
+        }
+    }
+    // big jobs first (better load balance); the seed only rotates the order
+    jobs.sort_by_key(|(i, _, _)| match kind_of(&reg[*i]) {
+        Kind::Multi => 0,
+        Kind::Single => 1,
+        _ => 2,
+    });
+    verif_common::rotate_by_seed(&mut jobs, args.seed);
+    let next = AtomicUsize::new(0);
+    let total = Mutex::new(Stats::default());
+    let n_threads = std::thread::available_parallelism().map(|n| n.get()).unwrap_or(4).min(16);
+    std::thread::scope(|s| {
+        for _ in 0..n_threads {
+            s.spawn(|| {
+                loop {
+                    let i = next.fetch_add(1, Ordering::SeqCst);
+                    if i >= jobs.len() {
+                        break;
+                    }
+                    let (ei, ch, sub) = jobs[i];
+                    let st = run_job(&router, &reg[ei], ch, sub, &bounds);
+                    total.lock().unwrap().merge(st);
+                }
+            });
+        }
+    });
+    let mut stats = total.into_inner().unwrap();
+    // deterministic reporting order, independent of thread scheduling
+    stats.found.sort_by(|a, b| (&a.key, a.case.to_string().len(), a.case.to_string()).cmp(&(&b.key, b.case.to_string().len(), b.case.to_string())));
+    for f in &stats.found {
+        rep.violation(&f.key, &f.what, f.case.clone());
+    }
+    let mut samples: Vec<Value> = vec![];
+    for (class, v) in &stats.samples {
+        for s in v {
+            let mut s = s.clone();
+            s["class"] = json!(class);
+            s.as_object_mut().unwrap().remove("expect");
+            samples.push(s);
+        }
+    }
+    let outcome_classes: BTreeMap<String, u64> = {
+        let mut m = BTreeMap::new();
+        for (k, v) in &stats.histogram {
+            let o = k.split(" -> ").nth(1).unwrap_or("?").to_string();
+            *m.entry(o).or_default() += *v;
+        }
+        m
+    };
+    let coverage = json!({
+        "evaluations": stats.evaluations,
+        "distinct_cases": stats.distinct,
+        "distinct_nontrivial": stats.distinct_nontrivial,
+        "exhaustive": true,
+        "caps_hit": [],
+        "rule": format!(
+            "Channels: PathParams::extract (request target parsed by http::Uri, params produced by a real matchit::Router::at \
+             on {n_routes} route templates, RawPathParams::from(Params)), QueryParams::extract(&RequestHead), \
+             UrlEncodedBody::extract and JsonBody::extract (BufferedBody built through hook H1). \
+             Targets: {n_shapes} structs: one field `x` of String, &str, Cow<str>, u8, u16, u32, u64, i64, f64, bool, char, \
+             newtype Id(u32), Option<String>, Option<u32>, Option<Cow<str>>; {{a: String, b: Cow<str>, c: u32}} in all 6 declaration \
+             orders x all 6 wire orders; a 12-field struct with every type in 2 declaration orders x 3 wire orders; \
+             Vec<String>/Vec<u32>/Vec<Option<u32>> next to a scalar. \
+             Values: all strings of length <= {sl} over {{a % + space / & = 2 5 e-acute U+1D11E}} (JSON: plus double-quote and backslash, \
+             length <= {jl}) 7 values that look percent-encoded themselves (%41, %2541, %25, %2F, %2B, %20, %C3%A9) and {ne} numeric/bool edge literals (0, -1, type maxima +-1, u64::MAX, i64::MIN, 1e308, 0.1, -0, +5, 05, true, True). \
+             Encodings: EVERY per-character choice of {{literal where http::Uri and the position allow it, %XX upper-case hex, %XX lower-case hex, \
+             `+` for space in query/form, a stray literal `%`}}; JSON: {{literal, \\uXXXX upper, \\uXXXX lower, short escape}}; edge literals: \
+             minimal, all-escaped upper/lower, each single position escaped. Field `a` of the 3-field target up to length {ml} (JSON: min({ml},2)), `b` up to 1, `c` in {{0, 25, u32::MAX, u32::MAX+1, a}} minimal and (for `a` up to length 2) fully escaped; \
+             sequences up to {ql} repetitions in every interleaving with the scalar key. \
+             Malformed: 10 percent-encoded invalid UTF-8 byte strings (+3 raw ones for forms), truncated/stray `%`, wrong type, out-of-range \
+             numbers, missing field, repeated scalar key, 19 malformed JSON documents, {nct} content-type headers. \
+             Oracle (reference model in refmodel.rs): value after exactly ONE percent-decoding bound to the field of the same NAME \
+             (strings verbatim, numbers/bools by an independent digit parser, sequences in order); canonical literals must succeed, \
+             anything the reference cannot read as the field type must fail with the documented variant \
+             (path: InvalidUtf8InPathParameter naming key and raw segment, ParseErrorAtKey{{key,value,expected_type}}, Message for missing field / \
+             non-borrowable &str, UnsupportedType for sequences; query: QueryDeserializationError; bodies: MissingContentType / \
+             ContentTypeMismatch{{actual}} / DeserializationError); where docs force nothing (stray `%`, `+5`, `05`, `-0`, &str that needs \
+             decoding, repeated scalar key, JSON trailing garbage, upper-case media type) the outcome must be the reference value or an error, \
+             never another value; a panic (catch_unwind) is always a violation. \
+             A case is non-trivial unless it is a single field whose wire form equals the value and must succeed.",
+            n_routes = cases::ROUTES.len(),
+            n_shapes = reg.len(),
+            sl = bounds.single_len,
+            jl = bounds.json_len,
+            ne = refmodel::EDGE_LITERALS.len(),
+            ml = bounds.multi_a_len,
+            ql = bounds.seq_len,
+            nct = cases::content_types(Channel::Json).len() + cases::content_types(Channel::Form).len(),
+        ),
+        "strict_json_tail": bounds.strict_json_tail,
+        "bounds": {
+            "single_field_string_len": bounds.single_len,
+            "json_string_len": bounds.json_len,
+            "three_field_a_len": bounds.multi_a_len,
+            "sequence_len": bounds.seq_len,
+        },
+        "evaluations_per_channel": stats.per_channel,
+        "ambiguous_encodings_skipped": stats.dropped_ambiguous,
+        "violating_cases_total": stats.found.len() as u64 + stats.violations_beyond_witness_cap,
+        "outcome_histogram": outcome_classes,
+        "oracle_branch_histogram": stats.histogram,
+        "samples": samples,
+    });
+    let code = rep.finish(
+        "exploration",
+        coverage,
+        &[
+            "the request target reaches the router as hyper delivers it: parsed by http::Uri (1.x), path() handed to matchit::Router::at unchanged",
+            "target structs derive serde::Deserialize directly (the guide allows this instead of #[PathParams])",
+            "BufferedBody is built with hook H1 from a single in-memory frame; buffering itself is property C14's business",
+            "`+` means space in query strings and form bodies (application/x-www-form-urlencoded, the format serde_html_form documents)",
+            "serde_html_form's documented conventions are taken as the contract for query/form: empty value = None for Option, repeated key = sequence, at least one occurrence required for Vec",
+            "f64 reference for JSON number tokens is Rust's correctly rounded str::parse::<f64>",
+        ],
+    );
+    std::process::exit(code);
+}
